@@ -251,6 +251,32 @@ def run(pid, tier, seed):
                     jobs.append((si, "quiet-hold-fileinfo", {"_pre": pre, "S4_VERIF_HOLD": "w%d:SendStart:0:250" % w}, None))
             jobs.append((si, "quiet-hold-all-others", {"_pre": pre, "S4_VERIF_HOLD": ",".join("w%d:WStart:0:%d" % (w, 200 + 60 * w) for w in range(n) if w != quiet)}, None))
 
+        # messages larger than the printer's buffer (2056 bytes), made of many lines or of one long line, between the short
+        # messages of another source: each is on stdout whole before the next one starts
+        for li in range(2 if tier == "quick" else 6):
+            files, argv, sources, meta = {}, [], [], []
+            kinds_ = [("many-lines", lambda i: [b"    at frame %02d of message %d %s" % (q, i, b"f" * 60) for q in range(30)], 0),
+                      ("one-long-line", None, 2300 + 400 * li)]
+            ka = kinds_[li % 2]
+            blob_a, ma = gen.text_source("LONG", [(gen.BASE + 50 + 6 * i, 0) for i in range(9)], frac=0, pad=ka[2], cont=ka[1])
+            blob_b, mb = gen.text_source("TINY", [(gen.BASE + 50 + 2 * i + 1, 0) for i in range(27)], frac=0)
+            order = [("la.log", blob_a, ma), ("lb.log", blob_b, mb)]
+            if li % 4 >= 2:
+                order.reverse()
+            for nm_, blob_, ms_ in order:
+                files[nm_] = blob_
+                argv.append(nm_)
+                sources.append(ms_)
+                meta.append({"name": nm_, "kind": "log", "msgs": len(ms_), "shape": ka[0]})
+            expected = b"".join(m.data for m in gen.expected_merge(sources))
+            ranks = runmodel.rank_table([m.key for s_ in sources for m in s_])
+            dts = [[ranks[m.key] for m in s_] for s_ in sources]
+            sets.append((files, argv, sources, meta, expected, ranks, dts))
+            si = len(sets) - 1
+            jobs.append((si, "long-messages-free", {}, None))
+            jobs.append((si, "long-messages-untraced", {"_notrace": True}, None))
+            jobs.append((si, "long-messages-seeded", {"S4_VERIF_SEED": str(rng.randrange(1 << 30)), "S4_VERIF_DELAY_US": "1200"}, None))
+
         # sources that each write their timestamps in a DIFFERENT notation (and at different places in the line): every
         # reader works out its own notation at the same moment as the others do theirs; run over and over, freely
         from . import c04
